@@ -157,6 +157,26 @@ def worker(version, args):
             for i in rng.sample(range(size * size), min(6, size * size)):
                 for a, f in TILE_FIELDS.items():
                     edits.append(("tile", i, a, scn.map_manager.terrain[i], [f"Map.terrain_data[{i}].{f}"]))
+            # designation: tile (x, y) IS the object of record y*size+x, and coordinates outside the map designate no tile
+            mm_ = scn.map_manager
+            for _ in range(12):
+                x_, y_ = rng.randrange(size), rng.randrange(size)
+                st_, t_ = common.outcome(mm_.get_tile, x_, y_)
+                R.case(key=f"designate:{x_},{y_}", nontrivial=True, tags=("tile-designation",))
+                if st_ != "ok" or t_ is not mm_.terrain[y_ * size + x_]:
+                    R.violation({"version": version, "kind": "tile-designation", "where": "inside"},
+                                f"get_tile({x_}, {y_}) on a {size}x{size} map does not return the tile of record {y_ * size + x_}",
+                                {"version": version, "size": size, "x": x_, "y": y_})
+            k_ = rng.randrange(size)
+            for x_, y_ in [(-1, k_), (k_, -1), (size, k_), (k_, size), (-1, -1), (-2, k_), (k_, -size), (-size, k_)]:
+                st_, t_ = common.outcome(mm_.get_tile_safe, x_, y_)
+                st2_, t2_ = common.outcome(mm_.get_tile, x_, y_)
+                R.case(key=f"outside:{x_},{y_}", nontrivial=True, tags=("tile-designation-outside",))
+                if (st_ == "ok" and t_ is not None) or st2_ == "ok":
+                    R.violation({"version": version, "kind": "tile-designation", "where": "outside"},
+                                f"coordinates ({x_}, {y_}) outside a {size}x{size} map designate a tile "
+                                f"(get_tile_safe -> {getattr(t_, 'i', t_)!r}, get_tile -> {st2_})",
+                                {"version": version, "size": size, "x": x_, "y": y_})
             from AoE2ScenarioParser.objects.support.trigger_select import TriggerSelect as TS
             order = list(tm.trigger_display_order)
             for ti, t in enumerate(tm.triggers):
